@@ -5,7 +5,7 @@ CONSTANTS
   DetailNames <- NamesAll
   Mismatches = {"m0", "m1", "m2"}
   Attrs = {"a_exist", "a_missing", "a_none"}
-  Fixtures = {"f_ok", "f_tb", "f_two", "f_bad", "f_cr", "f_gr", "f_nest", "f_nestbad", "f_nestcr"}
+  Fixtures = {"f_ok", "f_tb", "f_two", "f_bad", "f_cr", "f_gr", "f_nest", "f_nestbad", "f_nestcr", "f_classic"}
   MaxFaults = 99
   MaxSteps = 99
   MaxTotalSteps = 99
@@ -13,6 +13,7 @@ CONSTANTS
   AllowDecor = TRUE
   OnExcChoices = {TRUE, FALSE}
   PreForceChoices = {TRUE, FALSE}
+  XfDecChoices = {TRUE, FALSE}
   StepOps = {"upcall", "addCleanup", "addDetail", "expect", "patch", "useFixture"}
   AllowMulti = TRUE
   Variant = "asRequired"
@@ -20,7 +21,7 @@ CONSTANTS
   GatherOf <- MCGatherOf
   CleanOf <- MCCleanOf
   FixtureSetUpFails <- MCFixtureSetUpFails
-  FixtureFailCount <- MCFixtureFailCount
+  FixtureFailKinds <- MCFixtureFailKinds
   FixtureCleanKind <- MCFixtureCleanKind
   FixtureGatherRaises <- MCFixtureGatherRaises
   FixtureDetails <- MCFixtureDetails
